@@ -544,8 +544,8 @@ Section Roots.
   Lemma compact_cnt r : 0 <= region -> 0 <= r <= region -> nthZ 0 (compact lk region) r = cnt (root lk r).
   Proof.
     intros Hreg Hr. unfold compact. apply compact_loop_cnt; auto; try lia.
-    - rewrite lenZ_repeat. lia.
-    - intros r' Hr'. lia.
+    all: try (rewrite lenZ_repeat; lia).
+    all: try (intros; lia).
   Qed.
 
   (* two ids get the same final id iff they are in the same class of the lookup *)
@@ -603,7 +603,7 @@ Proof.
   split.
   - intros H. apply rst_of_rt_sym; [exact Hsym|]. revert H. apply rst_incl.
     intros x y (H1 & H2 & H3 & H4). apply rst_step. unfold linkedP. auto.
-  - intros H. induction H as [x y (H1 & H2 & H3)|x|x y z _ IH1 _ IH2].
+  - clear - Hnx. intros H. induction H as [x y (H1 & H2 & H3)|x|x y z _ IH1 _ IH2].
     + apply rst_step. unfold lnk. repeat split; auto; try lia; eapply neighbours_range; eauto.
     + apply rst_refl.
     + eapply rst_trans; eauto.
